@@ -15,6 +15,12 @@ T2  TLC (ProblemKindLatticeEnum) emits every kind, every ordered pair (+ every k
 T3  TLC (ProblemKindLatticeTrace) judges every recorded step against the specification's query
     actions (result, operands unchanged, equal kinds hash equally) and checks the laws on the
     recorded values themselves.
+Cover stage (spec/ProblemKindLatticeUpgrade.tla): the hand-picked universes above are small; the features
+    that have an entry in an upgrade table are found by probing the real upgrade functions, and every
+    combination of them is checked: UpgradeMonotone / UpgradeWF on the real tables for every covering
+    pair of kinds (a, a + one feature), and the same pairs as real ProblemKind objects compared before
+    and after upgrading.  Thorough tier: also the interaction universes (features that meet in one
+    rule or one result) through T1-T3.
 Python builds objects, calls the API and projects observations to integers; every verdict is a
 TLA+ clause evaluated by TLC.
 """
@@ -71,15 +77,16 @@ CONSTANTS NF <- CTabNF
  Depr <- CTabDepr
  Up <- CTabUp
  UpOut <- CTabUpOut
- CoverFeat <- CTabCover
+ CoverSeq <- CTabCoverSeq
+ HasObs <- CTabHasObs
+ Obs <- CTabObs
  NObj = 2
  FullBounds = FALSE
-INVARIANT LawUpgradeCover
-INVARIANT LawTables
+INVARIANT CoverVerdict
 """
+COVER_SIG = {"T1-LawUpgradeCover": "T1|LawUpgradeCover", "T1-LawTables": "T1|LawTables"}
 MAX_COVER_FEATURES = 16   # 2^16 subsets per upgrade function: the bound of ProblemKindLatticeTables
 MAX_COMPONENT_FEATURES = 6  # a derived universe is replayed on all pairs of kinds: 6 features = 168 kinds
-QUICK_COMPONENT_KINDS = 64  # quick tier: only the derived universes with at most this many kinds (all-pairs replay)
 
 OPNAMES = {1: "==", 2: "<=", 3: "union", 4: "intersection", 5: "a <= a.union(b)", 6: "b <= a.union(b)",
            7: "a.intersection(b) <= a", 8: "a.intersection(b) <= b", 9: "upgrade both, then <="}
@@ -203,9 +210,11 @@ def order_features(prof, feats):
 
 
 def derived_universes(prof):
-    """(cover universe, [interaction universes]).
+    """([cover universes], [interaction universes]).
     Cover universe: every feature an upgrade function reads, writes or removes (+ every deprecated feature):
-    the whole upgrade tables, checked by ProblemKindLatticeUpgrade.
+    the whole upgrade tables, checked by ProblemKindLatticeUpgrade.  (One universe as long as these are at most
+    MAX_COVER_FEATURES features; beyond, the groups of features that meet in one rule or result are kept together
+    and packed into several universes: only combinations across groups are lost.)
     Interaction universes: the connected components of `links` (features that meet in one rule or in one
     result), each closed under the upgrade functions: small enough for the all-pairs replay on real objects."""
     cover = upgrade_closure(prof, prof["sources"] | prof["written"] | prof["removed"] | prof["deprecated"])
@@ -228,7 +237,19 @@ def derived_universes(prof):
         U = order_features(prof, U)
         if U not in out and len(U) <= MAX_COMPONENT_FEATURES:
             out.append(U)
-    return order_features(prof, cover), out
+    covers = [cover]
+    if len(cover) > MAX_COVER_FEATURES:
+        groups = [set(c) for c in sorted({tuple(sorted(c)) for c in comp.values()})]
+        groups += [{f} for f in sorted(cover) if f not in comp and (f in prof["sources"] or f in prof["removed"] or f in prof["deprecated"])]
+        covers = []
+        for g in groups:
+            g = upgrade_closure(prof, g)
+            fit = [c for c in covers if len(c | g) <= MAX_COVER_FEATURES]
+            if fit:
+                fit[0] |= g
+            else:
+                covers.append(set(g))
+    return [order_features(prof, c) for c in covers], out
 
 
 def pad_universe(prof, U):
@@ -242,11 +263,6 @@ def pad_universe(prof, U):
         if not any(want(f) for f in U):
             U += [f for f in prof["features"] if want(f) and f not in U][:1]
     return order_features(prof, upgrade_closure(prof, U))
-
-
-def n_kinds(prof, U):
-    """number of well-formed kinds over U (version=None and every declared version)"""
-    return 2 ** len(U) + sum(2 ** sum(1 for f in U if prof["added"].get(f, 1) <= v) for v in range(1, prof["latest"] + 1))
 
 
 def cover_tables(U, prof, full):
@@ -282,10 +298,56 @@ def cover_tables(U, prof, full):
             "outside": sorted(outside)}
 
 
-def check_upgrade_tables(ctx, name, U, prof, full):
-    """T1 on the whole upgrade tables (ProblemKindLatticeUpgrade): UpgradeMonotone (both directions) on every
-    covering pair of kinds of one version, UpgradeWF on every kind, over the universe of all features the real
-    upgrade functions touch."""
+def cover_observations(U, tab):
+    """For every covering pair of the cover stage (kind a = (v, F) over cover[v], b = a plus one feature g): the
+    comparisons of the real objects, before and after upgrading both.  Tabulated for the whole case space of the
+    specification (nothing is selected here), fresh objects for every query; judged by ProblemKindLatticeUpgrade."""
+    from unified_planning.model.problem_kind import ProblemKind as PK
+
+    V = versioning()
+    latest = tab["latest"]
+
+    def up(feats, v, w):
+        return PK(V.equalize_versions(set(feats), set(), v, w)[0], version=w)
+
+    obs = []
+    n = 0
+    for v in range(1, latest):
+        cov = [U[i - 1] for i in tab["cover"][v - 1]]
+        rows = []
+        for k in range(2 ** len(cov)):
+            F = [cov[j] for j in range(len(cov)) if k >> j & 1]
+            row = []
+            for j, g in enumerate(cov):
+                if k >> j & 1:
+                    row.append([])
+                    continue
+                G = F + [g]
+                rec = [0]
+                try:
+                    with time_limit(5):
+                        rec.append(int(PK(F, version=v) <= PK(G, version=v)))
+                        rec.append(int(PK(G, version=v) <= PK(F, version=v)))
+                        for w in range(v + 1, latest + 1):
+                            rec.append(int(up(F, v, w) <= up(G, v, w)))
+                            rec.append(int(up(G, v, w) <= up(F, v, w)))
+                            rec.append(int(PK(F, version=v) <= up(G, v, w)))
+                            rec.append(int(up(G, v, w) <= PK(F, version=v)))
+                except MachineryError:
+                    raise
+                except Exception:
+                    rec = [1] + [0] * (2 + 4 * (latest - v))
+                n += len(rec) - 1
+                row.append(rec)
+            rows.append(row)
+        obs.append(rows)
+    return obs, n
+
+
+def check_upgrade_tables(ctx, name, U, prof, full, observe, corrupt=None):
+    """Cover stage (ProblemKindLatticeUpgrade): UpgradeMonotone (both directions) on every covering pair of kinds
+    of one version, UpgradeWF on every kind, over the universe of all features the real upgrade functions touch;
+    `observe`: the same pairs as real ProblemKind objects, compared before and after upgrading."""
     if len(U) > MAX_COVER_FEATURES:
         raise MachineryError("the upgrade functions touch %d features: more than the cover stage tabulates" % len(U))
     d = ctx.sub(name)
@@ -299,41 +361,67 @@ def check_upgrade_tables(ctx, name, U, prof, full):
         raise MachineryError("cover universe %s: every upgrade function is the identity on it: vacuous" % name)
     if not any(len(c) >= 2 for c in tab["cover"]):
         raise MachineryError("cover universe %s: no version with two features to combine: vacuous" % name)
+    tab["hasobs"], tab["obs"], nobs = 0, [], 0
+    if observe:
+        try:
+            tab["obs"], nobs = cover_observations(U, tab)
+            tab["hasobs"] = 1
+        except ImplTimeout:
+            ctx.violation("impl-nonterminating", "a ProblemKind comparison does not return within its time limit", {"universe": U})
+    if corrupt is not None:  # --selftest: falsify recorded fields, the judge must object
+        corrupt(tab)
     tpath = os.path.join(d, "tables.json")
     tlc.write_json(tpath, tab)
-    res = tlc.run_tlc("ProblemKindLatticeUpgrade", COVER_CFG, os.path.join(d, "t1"), env={"TABLES": tpath}, timeout=3000)
-    if res.error:
-        raise MachineryError(res.error)
-    ctx.add_tlc("T1 %s (upgrade laws on covering pairs of kinds)" % name, res)
-    ctx.cov["evaluations"] += sum(len(r) for r in tab["upm"])
+    # TLC evaluates the constant tables once per worker: few workers for the small case space
+    res = tlc.run_tlc("ProblemKindLatticeUpgrade", COVER_CFG, os.path.join(d, "t1"), env={"TABLES": tpath}, timeout=3000,
+                      workers=(8 if full else 2))
+    if res.error or res.violated:
+        raise MachineryError("ProblemKindLatticeUpgrade failed: %s %s" % (res.violated, res.error))
+    ctx.add_tlc("cover %s (upgrade laws%s on covering pairs of kinds)" % (name, " + real objects" if tab["hasobs"] else ""), res)
+    ctx.cov["evaluations"] += sum(len(r) for r in tab["upm"]) + nobs
     expected = [p[1] for p in res.printed if isinstance(p, list) and len(p) == 2 and p[0] == "COVER"]
     nav = [len(c) for c in tab["cover"]]
     if not expected or expected[0] != 1 + sum(2 ** n + n * 2 ** n // 2 for n in nav):
         raise MachineryError("cover stage: TLC counts %r cases for %r features per version" % (expected, nav))
-    if res.violated:
-        tr = [s["vars"] for s in res.trace]
-        objs = tr[-1].get("objs", []) if tr else []
-        names = lambda k: {"version": k.get("dv"), "features": [U[i - 1] for i in sorted(k.get("f", {}).get("$set", []))]}
-        V = versioning()
-
-        def upgraded(k):  # witness data only: the real functions applied to the kinds of the counterexample
-            out, F, v = {}, set(k["features"]), k["version"]
-            with time_limit(5):
-                while isinstance(v, int) and 1 <= v < tab["latest"]:
-                    F = V.upgrade_functions_map[(v, v + 1)](F)
-                    v += 1
-                    out["to version %d" % v] = sorted(F)
-            return out
-
-        kinds = [names(k) for k in objs if isinstance(k, dict) and isinstance(k.get("f"), dict) and k.get("dv")]
-        ctx.violation("T1|" + res.violated,
-                      "the upgrade functions of problem_kind_versioning violate %s (upgrading preserves <= / an upgraded kind "
-                      "is a well-formed kind of the new version) on kinds of one version that differ in one feature" % res.violated,
-                      {"universe": U, "tables": {k: tab[k] for k in ("added", "depr", "latest", "cover")}, "kinds": kinds,
-                       "upgraded": [upgraded(k) for k in kinds], "trace": tr})
-    elif res.distinct != expected[0]:
+    if res.distinct != expected[0]:
         raise MachineryError("cover stage visited %d states, expected %d" % (res.distinct, expected[0]))
-    return {"features": len(U), "kinds_made_of": [[U[i - 1] for i in c] for c in tab["cover"]], "states": res.distinct}
+    if tab["hasobs"]:
+        ctx.cov["traces_validated_against_impl"] += sum(n * 2 ** n // 2 for n in nav)
+    V = versioning()
+
+    def kind(v, m):
+        return {"version": v, "features": [U[i] for i in range(len(U)) if m >> i & 1]}
+
+    def upgraded(k):  # witness data only: the real functions applied to the kinds of the failed case
+        out, F, v = {}, set(k["features"]), k["version"]
+        with time_limit(5):
+            while v < tab["latest"]:
+                F = V.upgrade_functions_map[(v, v + 1)](F)
+                v += 1
+                out["to version %d" % v] = sorted(F)
+        return out
+
+    fails = sorted(tuple(p[1:]) for p in res.printed if isinstance(p, list) and len(p) == 6 and p[0] == "FAIL")
+    detailed = {}
+    for v, ma, mb, clause, feat in fails:
+        sig = "|".join(x for x in (COVER_SIG.get(clause, clause), feat) if x)
+        data = {"universe": U, "universe_name": name, "clause": clause, "cover_case": [v, ma, mb]}
+        if detailed.get(sig, 0) < 3:
+            detailed[sig] = detailed.get(sig, 0) + 1
+            a, b = kind(v, ma), kind(v, mb)
+            data.update({"a": a, "b": b, "a_upgraded": upgraded(a), "b_upgraded": upgraded(b),
+                         "tables": {k: tab[k] for k in ("added", "depr", "latest", "cover")}})
+            if tab["hasobs"] and ma != mb:
+                cov = tab["cover"][v - 1]
+                k = sum(1 << j for j, i in enumerate(cov) if ma >> (i - 1) & 1)
+                j = next(j for j, i in enumerate(cov) if (mb & ~ma) >> (i - 1) & 1)
+                data["recorded <<status, a<=b, b<=a, (a_w<=b_w, b_w<=a_w, a<=b_w, b_w<=a : w)>>"] = tab["obs"][v - 1][k][j]
+        what = ("the upgrade functions of problem_kind_versioning violate %s on kinds of one version that differ in one feature"
+                % clause[3:] if clause.startswith("T1-") else
+                "real ProblemKind objects that differ in one feature, compared before and after upgrading: clause %s fails" % clause)
+        ctx.violation(sig, "%s (%s)" % (what, feat or "-"), data)
+    return {"features": len(U), "kinds_made_of": [[U[i - 1] for i in c] for c in tab["cover"]], "states": res.distinct,
+            "failed_clauses": len(fails)}
 
 
 class Recorder:
@@ -622,19 +710,53 @@ def run(ctx):
     plan = ([("U0", False, False, False)] if q
             else [("U0", True, True, True)] + [(u, True, False, True) for u in ("U2", "U3", "U4", "U5")] + [("U1", False, False, False)])
     stats = {}
-    for i, (name, full, triples, bounds) in enumerate(plan):
+    for i, (name, full, triples, bounds) in enumerate(plan[:1]):
         stats[name] = check_universe(ctx, name, UNIVERSES[name], full, triples, bounds, coverage=(not q and i == 0))
+    # ---- universes derived from the real upgrade functions ------------------------------------------------
+    # cover stage: every combination of the features that have an entry in an upgrade table (laws on the real
+    # tables + real objects on the covering pairs of kinds); thorough: also with every available feature
+    prof = upgrade_profile()
+    covers, comps = derived_universes(prof)
+    ctx.cov["evaluations"] += prof["calls"]
+    for n, cover in enumerate(covers):
+        tag = "" if len(covers) == 1 else "-%d" % n
+        stats["UT" + tag] = check_upgrade_tables(ctx, "UT" + tag, cover, prof, False, True)
+        if not q:
+            stats["UTfull" + tag] = check_upgrade_tables(ctx, "UTfull" + tag, cover, prof, True, False)
+    for name, full, triples, bounds in plan[1:-1]:
+        stats[name] = check_universe(ctx, name, UNIVERSES[name], full, triples, bounds)
+    # interaction universes (features that meet in one upgrade rule or one upgrade result): all pairs of kinds on
+    # real objects; thorough tier (a universe of 4 features costs a third of the quick tier)
+    derived = []
+    if not q:
+        for n, U in enumerate(comps):
+            U = pad_universe(prof, U)
+            if len(U) > MAX_COMPONENT_FEATURES or any(set(U) == set(x) for x in list(UNIVERSES.values()) + derived):
+                continue
+            derived.append(U)
+            stats["I%d" % n] = check_universe(ctx, "I%d" % n, U, True, False, True, derived=True)
+    for name, full, triples, bounds in plan[1:][-1:]:
+        stats[name] = check_universe(ctx, name, UNIVERSES[name], full, triples, bounds)
     ctx.notes["universes"] = stats
+    ctx.notes["upgrade_profile"] = {"sources": sorted(prof["sources"]), "written": sorted(prof["written"]),
+                                    "removed": sorted(prof["removed"]), "links": sorted(prof["links"]),
+                                    "cover_universes": covers, "interaction_universes": comps}
     ctx.cov["rule"] = (
         "T1: every pair of kinds over the universe (all declared versions and version=None), third kinds quantified "
         "inside the laws (%s). T2/T3: every ordered pair of kinds and every kind with itself as one object, emitted by TLC; "
         "queries ==, <=, union, intersection on all pairs, upgrade-then-<= on pairs of one version%s; each on fresh real objects with operand state recorded before and after. "
         "Non-trivial pair: two different kinds of one version with a <= b. Unspecified: == between kinds of different versions. "
-        "Universes: %s." % (
+        "Universes: %s. Cover stage (UT): universe = every feature the real upgrade functions read, write or remove (%d features, found by probing "
+        "them); every kind of a version below the latest made of the features that version's upgrade function reads or removes%s, "
+        "paired with the same kind plus one feature: UpgradeMonotone in both directions and UpgradeWF on the real tables, and the real objects "
+        "compared before and after upgrading (a<=b, b<=a, a_w<=b_w, b_w<=a_w, a<=b_w, b_w<=a for every later version w)%s." % (
             "quick: lub/glb leastness over one representative per Eq-class, justified by RepOK + EqCongruent" if q
-            else "U1: representatives; U0, U2-U5: lub/glb leastness over all kinds of the version, plus the cross-version bound laws",
+            else "U1: representatives; U0, U2-U5, I*: lub/glb leastness over all kinds of the version, plus the cross-version bound laws",
             "" if q else ", a<=a|b, b<=a|b, a&b<=a, a&b<=b on pairs of one version (not U1); U0: a|b<=c and c<=a&b for every third kind c of the version (all same-version triples, a before b)",
-            ", ".join("%s=%s" % (p[0], UNIVERSES[p[0]]) for p in plan))
+            ", ".join(["%s=%s" % (p[0], UNIVERSES[p[0]]) for p in plan] + ["I*=%s" % U for U in derived]),
+            sum(len(c) for c in covers),
+            "" if q else " (UTfull: of every available feature, laws only)",
+            "" if q else "; I*: interaction universes = features that meet in one upgrade rule or result, closed under the upgrades, padded")
     )
     ctx.cov["exhaustive"] = True
     ctx.assumptions += [
@@ -644,11 +766,24 @@ def run(ctx):
         "hash values are renamed injectively to small integers (equality is all the judge uses)",
         "== between kinds of different versions is not judged (the statement is silent); >= , < , > (functools.total_ordering) are out of scope",
         "feature universes of 5-7 features; features outside the universe are counted, never interpreted",
+        "cover stage: which features an upgrade function reads / writes / removes is found by probing it (empty set, singletons, pairs, "
+        "everything, everything but one); a feature that matters only together with two or more others and only in a proper subset "
+        "of all features would stay outside the cover universe (quick) / is still combined in UTfull if it is in the universe",
     ]
 
 
 def replay(ctx, rep):
     d = rep["data"]
+    if "cover_case" in d:  # cover stage: cheap, rerun it as it was (the universe is derived from the code again)
+        prof = upgrade_profile()
+        name = d.get("universe_name", "UT")
+        full = name.startswith("UTfull")
+        for cover in derived_universes(prof)[0]:
+            if set(d["a"]["features"] if "a" in d else []) <= set(cover):
+                check_upgrade_tables(ctx, name, cover, prof, full, not full)
+        for sig in sorted({v.sig for v in ctx.violations}):
+            print("REPLAY %s" % sig)
+        return 1 if any(v.sig == rep["signature"] for v in ctx.violations) else 0
     if "pair" not in d:
         print("replay: this finding is a T1 (design-level) counterexample; rerun ./check C33")
         return 0
@@ -695,5 +830,28 @@ def selftest(ctx):
         sigs = sorted({v.sig for v in ctx.violations if tuple(v.data["pair"][:2]) == pair[:2]})
         ok = any(x.startswith(prefix) for x in sigs)
         print("selftest: falsified case %s -> judge reports %s : %s" % (pair, sigs, "ok" if ok else "NOT DETECTED"))
+        rc |= 0 if ok else 1
+    # cover stage: falsify one recorded comparison and one row of an upgrade table
+    del ctx.violations[:]
+    prof = upgrade_profile()
+    cover = derived_universes(prof)[0][0]
+    cexpect = {}
+
+    def ccorrupt(tab):
+        c1 = tab["cover"][0]
+        one = lambda i: 1 << (i - 1)
+        tab["obs"][0][1][1][3] ^= 1  # a = {first cover feature}, g = the second one: a_2 <= b_2
+        cexpect[(1, one(c1[0]), one(c1[0]) | one(c1[1]))] = "cover-le-of-upgraded"
+        tab["obs"][0][2][0][1] ^= 1  # a = {second}, g = the first: a <= b
+        cexpect[(1, one(c1[1]), one(c1[0]) | one(c1[1]))] = "cover-le|same-version"
+        m = one(c1[0]) | one(c1[2])  # the upgrade of {first, third} loses everything: not monotone any more
+        tab["upm"][0][m] = 0
+        cexpect[(1, one(c1[0]), m)] = "T1|LawUpgradeCover"
+
+    check_upgrade_tables(ctx, "selftest-cover", cover, prof, False, True, corrupt=ccorrupt)
+    for case, prefix in sorted(cexpect.items()):
+        sigs = sorted({v.sig for v in ctx.violations if tuple(v.data["cover_case"]) == case})
+        ok = any(x.startswith(prefix) for x in sigs)
+        print("selftest: falsified cover case %s -> judge reports %s : %s" % (case, sigs, "ok" if ok else "NOT DETECTED"))
         rc |= 0 if ok else 1
     return rc
